@@ -50,6 +50,12 @@ def run(ctx):
                    label="refinement BufferPool => BufferPoolInd!Spec (identity mapping) and IndInv in every reachable state")
         ctx.apalache_inductive("pool/MC_BufferPoolInd", "ConstInit", "Init", "IndInit", "IndInv", timeout=1500,
                                label="IndInv inductive for any number of operations; 3 threads, pre-state with <= 5 buffers ever created")
+        ctx.apalache_step_must_fail("pool/MC_BufferPoolInd", ["BufferPoolInd", "MC_BufferPoolInd"], "ConstInit", "IndInit", "IndInv", "BufferPoolInd",
+                                    "  /\\ pool' = SubSeq(pool, 1, i - 1) \\o SubSeq(pool, i + 1, Len(pool))\n  /\\ UNCHANGED <<bufs, freed>>",
+                                    "  /\\ UNCHANGED <<pool, bufs, freed>>", label="a pool hit leaves the buffer in the pool")
+        ctx.apalache_step_must_fail("pool/MC_BufferPoolInd", ["BufferPoolInd", "MC_BufferPoolInd"], "ConstInit", "IndInit", "IndInv", "BufferPoolInd",
+                                    "IF LayoutBytes(bufs[b]) >= MinSize", "IF LayoutBytes(bufs[b]) >= MinSize - 64",
+                                    label="add keeps buffers up to 64 bytes below the threshold")
     ctx.cov["schedules_generated_by_tlc"] = nh
     ctx.cov["schedules_replayed"] = n
     judge(ctx, [t1, t2, t3])
